@@ -32,35 +32,50 @@ fn proxy_request_internal(
     // The whole exchange, not just the connection attempt, must finish before the deadline.
     let deadline = Instant::now() + timeout;
 
-    let mut stream =
+    let stream =
         TcpStream::connect_timeout(&target, timeout).map_err(|_| ResponseError::Stream)?;
-    stream
-        .set_write_timeout(Some(timeout))
-        .map_err(|_| ResponseError::Stream)?;
 
     let mut cloned_request = request.clone();
     cloned_request
         .headers
         .add("X-Forwarded-For", request.address.origin_addr.to_string());
     let request_bytes: Vec<u8> = cloned_request.into();
+    let mut stream = DeadlineStream {
+        stream: &stream,
+        deadline,
+    };
     stream
         .write_all(&request_bytes)
         .map_err(|_| ResponseError::Stream)?;
 
-    Response::from_stream(&mut DeadlineReader {
-        stream: &stream,
-        deadline,
-    })
+    Response::from_stream(&mut stream)
 }
 
-/// Reads from the upstream stream, failing once the deadline has passed however slowly or
-///   rarely the upstream sends data.
-struct DeadlineReader<'a> {
+/// Reads from and writes to the upstream stream, failing once the deadline has passed however
+///   slowly or rarely the upstream sends or accepts data.
+struct DeadlineStream<'a> {
     stream: &'a TcpStream,
     deadline: Instant,
 }
 
-impl Read for DeadlineReader<'_> {
+impl Write for DeadlineStream<'_> {
+    fn write(&mut self, buf: &[u8]) -> std::io::Result<usize> {
+        let now = Instant::now();
+
+        if now >= self.deadline {
+            return Err(Error::new(ErrorKind::TimedOut, "upstream timed out"));
+        }
+
+        self.stream.set_write_timeout(Some(self.deadline - now))?;
+        self.stream.write(buf)
+    }
+
+    fn flush(&mut self) -> std::io::Result<()> {
+        self.stream.flush()
+    }
+}
+
+impl Read for DeadlineStream<'_> {
     fn read(&mut self, buf: &mut [u8]) -> std::io::Result<usize> {
         let now = Instant::now();
 
